@@ -645,6 +645,13 @@ pub fn rekey(
     msk: &mut MasterSecretKey,
     rights: HashSet<Right>,
 ) -> Result<(), Error> {
+    // Check all rights first not to leave the MSK partially re-keyed.
+    if let Some(r) = rights.iter().find(|r| msk.secrets.get_latest(r).is_none()) {
+        return Err(Error::OperationNotPermitted(format!(
+            "cannot re-key right {r:?}: it does not belong to the MSK"
+        )));
+    }
+
     for r in rights {
         if msk.secrets.contains_key(&r) {
             let is_hybridized = msk
